@@ -310,7 +310,7 @@ def gen_c17_two(rng) -> Dict[str, Any]:
             tagc[0] += 1
             steps.append({"kind": "dgram", "port": rng.choice(allp), "payload": valid_dgram(rng, rng.randrange(1, 1 << 24)).hex(),
                           "tag": tagc[0]})
-            steps.append({"kind": "sleep", "s": 0.01})
+            steps.append({"kind": "sleep", "s": rng.choice([0.01, 1.5])})
     steps.append({"kind": "sleep", "s": 1.0})
     return {"engine": "udp", "config": cfg, "steps": uidify(steps)}
 
@@ -371,7 +371,7 @@ def gen_c17(rng, index: Optional[int] = None, maxlen: int = 4, long: bool = Fals
             st["delay"] = round(rng.choice([0.0, 0.000001, 0.001, 0.5]), 6)
         steps.append(st)
         if not late:
-            steps.append({"kind": "sleep", "s": 0.01})
+            steps.append({"kind": "sleep", "s": rng.choice([0.01, 0.01, 1.5])})
 
     if index is not None:
         cfg["ports"] = [20002, 20003]
